@@ -13,7 +13,7 @@ import typing
 import warnings
 
 from .. import classscope as cs
-from .. import e2e, fieldcover, schemagen
+from .. import e2e, fieldcover, importledger, schemagen
 from .. import typetrees as tt
 from ..common import REPO, Rng, hx, unhx
 from ..runner import Check, match_finding
@@ -109,6 +109,8 @@ def ops_sx(ops) -> str:
     for op in ops:
         if op[0] == "rr":
             out.append(f"(rr {hx(op[1])})")
+        elif op[0] == "rem1":
+            out.append(f"(rem1 {imp_sx(op[1])})")
         else:
             out.append("(" + op[0] + "".join(" " + imp_sx(i) for i in op[1]) + ")")
     return "(" + " ".join(out) + ")"
@@ -860,11 +862,19 @@ def oracle_module(ck: Check, camp, inp: dict, code: str, kind: str, executable: 
     buckets = getattr(ck, "buckets", None) or BUCKETS
     obs = dynamic_observe(code, kind, hid, inp.get("instance"), inp.get("root", "Model")) if executable else None
     failures: list[tuple[dict, str]] = []  # (classification, observed)
-    base = {"oracle": "module_binding", "kind": kind, "opts_key": opts_key(inp.get("opts", {})), "keep_model_order": bool(inp.get("opts", {}).get("keep_model_order"))}
+    base = {"oracle": "module_binding", "kind": kind, "opts_key": opts_key(inp.get("opts", {})), "keep_model_order": bool(inp.get("opts", {}).get("keep_model_order")),
+            "reuse_and_collapse": bool(inp.get("opts", {}).get("reuse_model") and inp.get("opts", {}).get("collapse_root_models"))}
+    doc = inp.get("document")
+    definitions = set((doc.get("definitions") or {}) if isinstance(doc, dict) else ())
+    definition_parts = definitions | {part for d in definitions for part in d.split(".")}  # `pkg.Name`: module `pkg`, class `Name`
+    # named schemas in other modules of a package (`pkg.Name`) whose classes --collapse-root-models may all remove: the output is one module again
+    base["collapse_across_modules"] = bool(inp.get("opts", {}).get("collapse_root_models") and any("." in d for d in definitions))
 
     def binding_failure(mech: str, name: str, where: str, observed: str, seen: str, use: str, hider=None) -> None:
         c = dict(base, mechanism=mech, name=name, name_class=name_class(name, code), use=use, seen=seen,
-                 alias_pass=name.endswith("_aliased") or f"{name} as {name}_aliased" in code, text_context=text_context(name, code))
+                 alias_pass=name.endswith("_aliased") or f"{name} as {name}_aliased" in code, text_context=text_context(name, code),
+                 # the unbound name is a named schema of the document (or, for `pkg.Name`, its module / its class): the class is not in the module
+                 unbound_is_definition=name in definition_parts)
         if hider:
             c["hider"] = hider
         failures.append((c, f"{observed} [{where}]"))
@@ -997,13 +1007,35 @@ def opts_key(opts: dict) -> str:
     return "any"
 
 
-def e2e_case(ck: Check, camp, doc, kind: str, opts: dict, target: str | None, input_type: str = "jsonschema", feats=(), instance=None) -> None:
+def run_prelude(prelude) -> None:
+    """earlier generate() calls of the same process (state that survives a run is part of the input)"""
+    for p in prelude or []:
+        e2e.run_generate(p["document"], input_file_type=p.get("input_file_type", "jsonschema"), model=p["model"],
+                         opts=schemagen.materialise_options(p.get("opts", {})), target=p.get("target"))
+
+
+def e2e_case(ck: Check, camp, doc, kind: str, opts: dict, target: str | None, input_type: str = "jsonschema", feats=(), instance=None,
+             prelude=None, modular: bool = False):
     camp.evaluations += 1
     camp.hit("kind:" + kind)
     inp = {"document": doc, "input_file_type": input_type, "model": kind, "opts": opts, "target": target}
     if instance is not None:
         inp["instance"] = instance
-    res = e2e.run_generate(doc, input_file_type=input_type, model=kind, opts=schemagen.materialise_options(opts), target=target)
+    if prelude:
+        inp["prelude"] = prelude  # the generate() calls that preceded this one in the same process
+    if modular:
+        inp["modular"] = True
+    with importledger.recording() as rec:
+        res = e2e.run_generate(doc, input_file_type=input_type, model=kind, opts=schemagen.materialise_options(opts), target=target, modular=modular)
+    ledger = getattr(ck, "ledger_cases", None)
+    if ledger is not None and not res.hang:
+        for k, (h, inst) in enumerate(zip(rec.histories, rec.instances)):
+            if h:
+                try:
+                    final = real_state(inst)
+                except Exception as e:  # noqa: BLE001
+                    final = "unreadable:" + type(e).__name__
+                ledger.append({"input": inp, "instance": k, "history": h, "final": final, "completed": res.ok})
     if res.hang:
         camp.hit("hang(C01)")
         return
@@ -1024,6 +1056,7 @@ def e2e_case(ck: Check, camp, doc, kind: str, opts: dict, target: str | None, in
     camp.hit("holds" if ok else "fails")
     if ok and len(camp.samples) < 2 and len(res.code) > 400:
         camp.samples.append({"document": doc, "model": kind, "opts": opts, "target": target})
+    return res
 
 
 HIDE_OPTS = [{}, {}, {"use_union_operator": True}, {"use_standard_collections": True}, {"use_annotated": True, "field_constraints": True},
@@ -1103,10 +1136,137 @@ def campaign_shadow(ck: Check, camp, rng: Rng, n: int, grid_kinds: list[str]) ->
         e2e_case(ck, camp, doc, e2e.MODEL_KINDS[i % 5], dict(rng.choice(SHADOW_OPTS)), None, "jsonschema", feats)
 
 
-def campaign_e2e(ck: Check, n: int, n_collide: int, n_gql: int, n_hide: int = 60, n_shadow: int = 150) -> None:
+# ---------------------------------------------------------------- chains of root models (--collapse-root-models and its neighbours)
+def chain_grid() -> list[tuple[dict, dict, list[str]]]:
+    """every leaf type × a chain of two named schemas (alias, and inside a list) × collapse on/off ×
+    field constraints off/on: the member of the only surviving class is typed with the leaf type"""
+    out = []
+    for leaf, schema in schemagen.CHAIN_LEAVES.items():
+        for link in ("alias", "array"):
+            doc = {"title": "Model", "type": "object", "required": ["a"],
+                   "properties": {"a": {"$ref": "#/definitions/Outer"}, "n": {"type": "integer"}},
+                   "definitions": {"Inner": schemagen.json_copy(schema), "Outer": schemagen._wrap(link, {"$ref": "#/definitions/Inner"})}}
+            for opts in ({"collapse_root_models": True}, {"collapse_root_models": True, "field_constraints": True}, {}):
+                out.append((doc, opts, [f"chain_grid:{leaf}:{link}"]))
+    return out
+
+
+def campaign_chains(ck: Check, camp, rng: Rng, n: int, grid_stride: int) -> None:
+    for i, (doc, opts, feats) in enumerate(chain_grid()):
+        if grid_stride == 1:
+            kinds = e2e.MODEL_KINDS
+        else:  # quick: every case in pydantic v2 (the kind with RootModel classes) and one more kind in rotation
+            kinds = ["pydantic_v2.BaseModel", [k for k in e2e.MODEL_KINDS if k != "pydantic_v2.BaseModel"][i % 4]]
+        for kind in kinds:
+            e2e_case(ck, camp, doc, kind, dict(opts), None, "jsonschema", feats)
+    for i in range(n):
+        modular = i % 8 == 7  # the chain levels in other modules of a package: judged by the ledger campaign only
+        doc, feats = schemagen.chain_document(rng, modular=modular)
+        opts = schemagen.chain_options(rng)
+        kind = e2e.MODEL_KINDS[i % 5] if rng.chance(3, 4) else "pydantic_v2.BaseModel"
+        e2e_case(ck, camp, doc, kind, opts, rng.choice([None, None, "3.9", "3.10"]), "jsonschema", feats + (["chain_modular"] if modular else []), modular=modular)
+
+
+# ---------------------------------------------------------------- two runs in one process
+# a member named like the type it is written with makes Parser.__alias_shadowed_imports alias the import
+# (`from datetime import date as date_aliased`); nothing of that may survive the run: the next
+# generate() call of the same process — same document, or one that merely uses the type — must bind its names.
+PAIR_TYPES = [("date", {"type": "string", "format": "date"}), ("datetime", {"type": "string", "format": "date-time"}), ("time", {"type": "string", "format": "time"}),
+              ("timedelta", {"type": "string", "format": "duration"}), ("UUID", {"type": "string", "format": "uuid"}), ("Decimal", {"type": "number", "format": "decimal"}),
+              ("AnyUrl", {"type": "string", "format": "uri"}), ("Path", {"type": "string", "format": "path"}), ("IPv4Address", {"type": "string", "format": "ipv4"}),
+              ("SecretStr", {"type": "string", "format": "password"}), ("PurePosixPath", {"type": "string", "customTypePath": "pathlib.PurePosixPath"}),
+              ("Fraction", {"type": "string", "customTypePath": "fractions.Fraction"}), ("constr", {"type": "string", "minLength": 1}), ("conint", {"type": "integer", "minimum": 0}),
+              ("Any", {}), ("str", {"type": "string"}), ("int", {"type": "integer"})]
+
+
+def campaign_pairs(ck: Check, camp, kinds: list[str]) -> None:
+    for i, (name, schema) in enumerate(PAIR_TYPES):
+        first = {"title": "Model", "type": "object", "properties": {name: schema, "more": {"type": "array", "items": schema}}}
+        second = {"title": "Model", "type": "object", "required": ["v"], "properties": {"v": schema, "vs": {"type": "array", "items": schema}, "n": {"type": "integer"}},
+                  "definitions": {"Named": schemagen.json_copy(schema)}}
+        second["properties"]["named"] = {"$ref": "#/definitions/Named"}
+        for kind in kinds:
+            res = e2e_case(ck, camp, first, kind, {}, None, "jsonschema", ["pair:first"])
+            if res is not None and "_aliased" in res.code:
+                camp.hit("pair:first_run_aliases_the_import")
+            pre = [{"document": first, "model": kind, "opts": {}}]
+            e2e_case(ck, camp, first, kind, {}, None, "jsonschema", ["pair:same_document_again"], prelude=pre)
+            e2e_case(ck, camp, second, kind, {}, None, "jsonschema", ["pair:plain_user_after"], prelude=pre)
+            other = e2e.MODEL_KINDS[(e2e.MODEL_KINDS.index(kind) + 1 + i % 4) % 5]
+            e2e_case(ck, camp, second, other, {}, None, "jsonschema", ["pair:plain_user_after_other_kind"], prelude=pre)
+
+
+# ---------------------------------------------------------------- the real append/remove history of Parser.parse vs the ledger discipline
+def op_names(op) -> str:
+    if op[0] in ("app", "rem"):
+        return f"{op[0]} [" + ", ".join(f"{i['from']}.{i['name']}" for i in op[1]) + "]"
+    if op[0] == "rem1":
+        return f"rem1 {op[1]['from']}.{op[1]['name']}"
+    return f"rr {op[1]}"
+
+
+def campaign_ledger(ck: Check) -> None:
+    """Every generate() call of the e2e campaign ran with Imports.append / remove /
+    remove_referenced_imports recorded (vlib/importledger.py).  Each recorded history goes through the
+    Lean model twice: `ledgerBreak` (Props/C02 `ledger_counts`, `ledger_filed_present` assume a
+    disciplined history — the real one must be) and `run` (the model's final state against the real
+    object's: counters, names, aliases, reference paths, dump)."""
+    camp = ck.campaign("imports.ledger: the REAL append/remove history of every Imports object of Parser.parse (recorded during the e2e campaign's generate() calls): "
+                       "disciplined (Model.Imports.ledgerRun) and Model.Imports.run ends in the real object's state")
+    t0 = time.time()
+    cases = ck.ledger_cases
+    reps = ck.driver.run([f"imports.ledger {ops_sx(c['history'])}" for c in cases]) if cases else []
+    bad_docs = set()
+    for c, rep in zip(cases, reps):
+        camp.evaluations += 1
+        if not rep.startswith("ok "):
+            ck.infra_errors.append(f"driver reply {rep[:80]!r} for imports.ledger")
+            continue
+        sx = parse_sx(rep[3:])
+        verdict, final = sx[0], sx[1]
+        h = c["history"]
+        kinds_of_op = {op[0] for op in h}
+        for k in sorted(kinds_of_op):
+            camp.hit("history_has:" + k)
+        camp.hit("instance:" + ("parser" if c["instance"] == 0 else "module"))
+        camp.hit(f"ops:{min(len(h) // 10 * 10, 50)}+")
+        camp.hit("kind:" + c["input"]["model"])
+        if c["input"].get("modular"):
+            camp.hit("package_output")
+        if not c["completed"]:
+            camp.hit("generate_raised(prefix_of_a_history)")
+        if "rem" in kinds_of_op:
+            camp.distinct.add(ops_sx(h))
+        doc_key = json.dumps(c["input"], sort_keys=True, default=str)
+        if verdict != "disciplined":
+            n = int(verdict[1])
+            camp.hit("undisciplined")
+            if doc_key not in bad_docs:  # one disagreement per document
+                bad_docs.add(doc_key)
+                ck.disagree(camp, dict(c["input"], imports_instance=c["instance"], step=n, history=[op_names(op) for op in h[: n + 1]]),
+                            "disciplined: every batch `remove(model.imports)` takes back a batch that an earlier `append` filed",
+                            f"operation {n} ({op_names(h[n])}) takes back a batch that was never filed (or was taken back already)")
+            continue
+        camp.hit("disciplined")
+        model = "raise" if final == "raise" else model_state(final)
+        if model == "raise":
+            camp.hit("model_raises")
+            if c["completed"]:
+                ck.disagree(camp, dict(c["input"], imports_instance=c["instance"]), "the history raises KeyError", "generate() completed")
+            continue
+        if model != c["final"]:
+            ck.disagree(camp, dict(c["input"], imports_instance=c["instance"], history=[op_names(op) for op in h]), model, c["final"])
+        elif len(camp.samples) < 2 and "rem" in kinds_of_op:
+            camp.samples.append({"document": c["input"]["document"], "model": c["input"]["model"], "opts": c["input"]["opts"], "history": [op_names(op) for op in h][:12]})
+    camp.wall_s = time.time() - t0
+
+
+def campaign_e2e(ck: Check, n: int, n_collide: int, n_gql: int, n_hide: int = 60, n_shadow: int = 150, n_chain: int = 200, quick: bool = True) -> None:
     camp = ck.campaign("e2e: generate() → import the module → resolve forward references of every model → no member hides a class its annotation names (+ one conforming instance for the member-named-like-its-class family); static scope analysis (5 kinds, msgspec static only)")
     t0 = time.time()
     rng = ck.rng.fork("e2e")
+    # first of all (nothing has run in this process yet, and a failure here carries its prelude for the replay)
+    campaign_pairs(ck, camp, ["pydantic_v2.BaseModel", "pydantic.BaseModel"] if quick else e2e.MODEL_KINDS)
     for doc, kind, opts, target, it, *rest in E2E_CORPUS:
         e2e_case(ck, camp, doc, kind, opts, target, it, ["corpus"], instance=rest[0] if rest else None)
     for i in range(n + n_collide):
@@ -1122,6 +1282,7 @@ def campaign_e2e(ck: Check, n: int, n_collide: int, n_gql: int, n_hide: int = 60
         e2e_case(ck, camp, sdl, rng.choice(e2e.MODEL_KINDS), opts, target, "graphql", ["graphql"])
     campaign_hiding(ck, camp, ck.rng.fork("hiding"), n_hide)
     campaign_shadow(ck, camp, ck.rng.fork("shadow"), n_shadow, e2e.MODEL_KINDS)
+    campaign_chains(ck, camp, ck.rng.fork("chains"), n_chain, 2 if quick else 1)
     camp.wall_s = time.time() - t0
 
 
@@ -1192,6 +1353,29 @@ def search_after_break(ck: Check) -> None:
     import-relevant shapes (unions, optionals, containers, literals) under every spelling."""
     camp = ck.campaign("search: documents × every spelling option vector through the module oracle")
     rng = ck.rng.fork("search")
+    # the documents on which a correspondence broke (e.g. an undisciplined import history), in every output kind and under the
+    # neighbouring option vectors: the disagreement names the mechanism, the oracle needs a module in which it unbinds a name
+    seen_docs = []
+    for d in ck.disagreements:
+        i = d.input if isinstance(d.input, dict) else {}
+        if "document" in i and i["document"] not in seen_docs and len(seen_docs) < 12:
+            seen_docs.append(i["document"])
+            o = dict(i.get("opts") or {})
+            for kind in e2e.MODEL_KINDS:
+                for extra in ({}, {"field_constraints": True}, {"field_constraints": True, "use_annotated": True}, {"use_standard_collections": True, "use_union_operator": True}):
+                    e2e_case(ck, camp, i["document"], kind, {**o, **extra}, i.get("target"), i.get("input_file_type", "jsonschema"), ["search:disagreeing_document"],
+                             modular=bool(i.get("modular")))
+                    if ck.failures:
+                        return
+    # chains of root models: few providers of each import, every leaf type
+    chain_rng = ck.rng.fork("search_chains")
+    for n in range(300):
+        doc, feats = schemagen.chain_document(chain_rng)
+        opts = schemagen.chain_options(chain_rng)
+        opts["collapse_root_models"] = True
+        e2e_case(ck, camp, doc, e2e.MODEL_KINDS[n % 5], opts, None, "jsonschema", feats)
+        if ck.failures:
+            return
     docs = [
         {"type": "object", "required": ["a", "b"], "properties": {"a": {"type": ["array", "null"], "items": {"type": "string"}}, "b": {"type": "integer"}, "c": {"enum": ["x", "y"]},
                                                                    "d": {"type": "object", "additionalProperties": {"type": "integer"}}, "e": {"anyOf": [{"type": "integer"}, {"type": "string"}]},
@@ -1220,7 +1404,9 @@ def known_findings(ck: Check) -> None:
         probe = Check(ck.prop, ck.tier)
         probe.findings = []
         camp = probe.campaign("witness")
-        e2e_case(probe, camp, w["document"], w["model"], w.get("opts", {}), w.get("target"), w.get("input_file_type", "jsonschema"), instance=w.get("instance"))
+        run_prelude(w.get("prelude"))
+        e2e_case(probe, camp, w["document"], w["model"], w.get("opts", {}), w.get("target"), w.get("input_file_type", "jsonschema"), instance=w.get("instance"),
+                 prelude=w.get("prelude"), modular=bool(w.get("modular")))
         if any(match_finding([f], fl.classification) for fl in probe.failures):
             ck.known(f["id"], f["what"])
         else:  # the witness no longer fails the way the finding says: the finding is stale (repaired, or its matcher is wrong)
@@ -1232,6 +1418,7 @@ def run(ck: Check) -> None:
     quick = ck.tier == "quick"
     ck.buckets = Buckets()
     ck.tie_cases = []
+    ck.ledger_cases = []
     ck.prove()
     ck.assumptions += [
         "Python's name resolution (module scope, class scope first inside a class body, deferred evaluation of annotations under `from __future__ import annotations`, lambda bodies run later in module scope, operands evaluated left to right before the operation) is what vlib/props/c02.py scope_analysis, vlib/classscope.py and lean/Dcg/Model/ClassScope.lean state; all three are compared with each other and with really importing the module on every run",
@@ -1243,8 +1430,10 @@ def run(ck: Check) -> None:
     campaign_histories(ck, 400 if quick else 4000)
     campaign_prune(ck, 200 if quick else 3000)
     campaign_type_imports(ck, 800 if quick else 4000, thorough=not quick)
-    campaign_e2e(ck, 520 if quick else 3000, 140 if quick else 800, 60 if quick else 300, 80 if quick else 800, 150 if quick else 1500)
+    campaign_e2e(ck, 520 if quick else 3000, 140 if quick else 800, 60 if quick else 300, 80 if quick else 800, 150 if quick else 1500,
+                 240 if quick else 2400, quick)
     campaign_tie(ck)
+    campaign_ledger(ck)
     fieldcover.campaign(ck, 600 if quick else 6000)
     ck.search_hooks.append(search_after_break)
     known_findings(ck)
@@ -1265,7 +1454,9 @@ def replay(ck: Check, path: str) -> int:
     ck.buckets = Buckets()
     camp = ck.campaign("replay")
     if "document" in inp:
-        e2e_case(ck, camp, inp["document"], inp["model"], inp.get("opts", {}), inp.get("target"), inp.get("input_file_type", "jsonschema"), instance=inp.get("instance"))
+        run_prelude(inp.get("prelude"))
+        e2e_case(ck, camp, inp["document"], inp["model"], inp.get("opts", {}), inp.get("target"), inp.get("input_file_type", "jsonschema"), instance=inp.get("instance"),
+                 prelude=inp.get("prelude"), modular=bool(inp.get("modular")))
     for f in ck.failures:
         k = match_finding(findings, f.classification)
         print("REPLAY-FAILS" + (f" (known finding {k['id']})" if k else "") + ":", json.dumps(f.classification), f.observed[:300])
